@@ -62,8 +62,11 @@ def compare_modes(runs, pr, pq, params, cm):
         elif not c01_pairs(union, j['Orientation'], 10 ** 9, 10 ** 9) and jp != union:
             # which mechanism lost pairs?  a parent with several segments (only segments[0] of each parent is joined) is the known one
             rows = {id(r): r for r in (runs['separate'].rows or [])}
+            whole = {m.moleculeId: m for m in (runs['separate'].query_maps or [])}
             multi = any(len([sg for sg in r.segments if sg.positions]) > 1 for r in (runs['separate'].rows or []) if r.queryId == q) or \
-                any(len([sg for sg in row.segments if sg.positions]) > 1 for row, _, _, _ in runs['separate'].candidates.get(q, []) if row.alignedRest)
+                any(len([sg for sg in row.segments if sg.positions]) > 1 for row, qmap, _, _ in runs['separate'].candidates.get(q, [])
+                    if qmap is not whole.get(q))       # a second-pass candidate: aligned from a fragment, not from the program's own query map
+            # (the AlignedRest flag cannot tell them apart here: it is set on the copy that came back from the worker, not on the object captured there)
             # K4: one part lies inside the other on the reference (the later-starting part ends before the earlier one does): the equal-
             # index cut removes the earlier part's tail from the cut to its END, i.e. also its pairs beyond the nested part.  Classified
             # from the two single-pass records alone: the missing pairs are exactly pairs of the enclosing part beyond the nested one.
